@@ -458,6 +458,11 @@ def run(ctx):
     from rules import printers as P_
     P_.R8_binders(_Only(ctx, lambda k_: k_.startswith("substitution")), "C04.R6", core)
 
+    # ---------------- R7 optional and rest parameters stay optional and rest in emitted source
+    ctx.rule("C04.R7", "a function that leaves the process keeps its parameter kinds: every printer of a parameter list writes `name`, `name?`, `...name` by kind, so the reloaded function accepts the argument counts the original accepted (optional ones default to null, the rest parameter collects)", floor=4)
+    from rules import symprint as symprint_
+    symprint_.param_markers(ctx, "C04.R7", core, scope_fns=("ast_to_source",), declare=False)
+
     # ---------------- R5 a parameter is bound under the name the user wrote
     from lib.peg import Grammar as G_
     from rules import c10 as c10_
